@@ -377,4 +377,133 @@ __CPROVER_ensures(g_sa_seg == segment_num && g_sa_ax == axial_pos_num && (g_erro
            && dp->p2_axial == (unsigned)g_sa_r1 && dp->p1_axial == (unsigned)g_sa_r2)))                                \
   __CPROVER_ensures(!g_error ==> dp->timing_pos == (bin->timing_pos_num < 0 ? -bin->timing_pos_num : bin->timing_pos_num) * self->tof_mash_factor)
 
+
+/* ================= ring pairs <-> (segment, axial position): ProjDataInfoCylindrical ================= */
+#define MAXSEGS 64
+struct PDI2
+{
+  int min_seg, max_seg;                 /* get_min_segment_num(), get_max_segment_num() */
+  int num_rings;                        /* get_scanner_ptr()->get_num_rings() */
+  _Bool sampling_corresponds_to_physical_rings;
+  _Bool ring_diff_arrays_computed;
+  int min_ring_diff[MAXSEGS], max_ring_diff[MAXSEGS], ax_pos_num_offset[MAXSEGS]; /* VectorWithOffset<int>, index range [min_seg,max_seg] */
+};
+/* VectorWithOffset<int>::operator[] on a per-segment vector: unchecked in release builds, so an index outside
+   [min_seg,max_seg] is an out-of-bounds access */
+static inline int K_segvec_at(const int* a, const struct PDI2* self, int seg)
+{
+  __CPROVER_assert(seg >= self->min_seg && seg <= self->max_seg, "per-segment vector indexed inside [min_segment,max_segment]");
+  return a[seg - self->min_seg];
+}
+#define SEGV(self, field, seg) K_segvec_at((self)->field, self, seg)
+/* the invariant the constructors establish (ProjDataInfoCylindrical ctor swaps min/max if needed; the segments of CTI/GE
+   style data have disjoint ring-difference intervals that increase with the segment number): ASSUMED here */
+int g_s, g_s2; /* ghost segments: stand for "every (pair of) segment(s)" */
+#define SEG_OK(p, s) ((s) >= (p)->min_seg && (s) <= (p)->max_seg)
+#define RDMIN(p, s) ((p)->min_ring_diff[(s) - (p)->min_seg])
+#define RDMAX(p, s) ((p)->max_ring_diff[(s) - (p)->min_seg])
+#define AXOFF(p, s) ((p)->ax_pos_num_offset[(s) - (p)->min_seg])
+#define INC(p, s) (RDMAX(p, s) != RDMIN(p, s) ? 2 : 1)
+#define RD_IN(p, s, rd) (RDMIN(p, s) <= (rd) && (rd) <= RDMAX(p, s))
+#define PDI2_VALID(p)                                                                                                 \
+  ((p)->min_seg <= (p)->max_seg && (p)->min_seg > -1000 && (p)->max_seg < 1000 && (p)->max_seg - (p)->min_seg < MAXSEGS \
+   && (p)->num_rings >= 1 && (p)->num_rings <= 4096                                                                   \
+   && (!SEG_OK(p, g_s) || (RDMIN(p, g_s) <= RDMAX(p, g_s) && RDMIN(p, g_s) > -8192 && RDMAX(p, g_s) < 8192            \
+                           && AXOFF(p, g_s) > -100000 && AXOFF(p, g_s) < 100000))                                     \
+   && (!SEG_OK(p, g_s2) || (RDMIN(p, g_s2) <= RDMAX(p, g_s2) && RDMIN(p, g_s2) > -8192 && RDMAX(p, g_s2) < 8192       \
+                            && AXOFF(p, g_s2) > -100000 && AXOFF(p, g_s2) < 100000))                                  \
+   && (!(SEG_OK(p, g_s) && SEG_OK(p, g_s2) && g_s < g_s2) || RDMAX(p, g_s) < RDMIN(p, g_s2)))
+
+#define CONTRACT_K_get_num_axial_poss_per_ring_inc                                                                   \
+  __CPROVER_requires(__CPROVER_is_fresh(self, sizeof(*self)) && SEG_OK(self, segment_num) && self->max_seg - self->min_seg < MAXSEGS) \
+  __CPROVER_assigns()                                                                                                  \
+  __CPROVER_ensures(__CPROVER_return_value == INC(self, segment_num))
+
+/* ring_diff_to_segment_num[rd]: reader contract == what the fill loop of initialise_ring_diff_arrays establishes:
+   the segment whose interval contains rd, or max_segment+1 ("impossible value") if there is none */
+#define RDTAB_LO(p) K_min_int(RDMIN(p, (p)->min_seg), -((p)->num_rings - 1))
+#define RDTAB_HI(p) K_max_int(RDMAX(p, (p)->max_seg), (p)->num_rings - 1)
+int RD2SEG_READ(const struct PDI2* self, int rd)
+__CPROVER_requires(self->ring_diff_arrays_computed && rd >= RDTAB_LO(self) && rd <= RDTAB_HI(self))
+__CPROVER_assigns()
+__CPROVER_ensures(__CPROVER_return_value >= self->min_seg && __CPROVER_return_value <= self->max_seg + 1)
+__CPROVER_ensures(__CPROVER_return_value <= self->max_seg ==> RD_IN(self, __CPROVER_return_value, rd))
+__CPROVER_ensures((SEG_OK(self, g_s) && RD_IN(self, g_s, rd)) ==> __CPROVER_return_value == g_s)
+;
+void K_init_ring_diff_arrays_if_not_done_yet(struct PDI2* self)
+__CPROVER_assigns(self->ring_diff_arrays_computed, g_error)
+__CPROVER_ensures(g_error || self->ring_diff_arrays_computed)
+;
+/* get_segment_num_for_ring_difference: yes iff some segment's interval contains the ring difference; then that segment */
+#define CONTRACT_K_get_segment_num_for_ring_difference                                                               \
+  __CPROVER_requires(__CPROVER_is_fresh(self, sizeof(*self)) && __CPROVER_is_fresh(segment_num, sizeof(int)) && PDI2_VALID(self) && g_error == 0) \
+  __CPROVER_requires(ring_diff > -8192 && ring_diff < 8192)                                                            \
+  __CPROVER_assigns(*segment_num, self->ring_diff_arrays_computed, g_error)                                            \
+  __CPROVER_ensures(!g_error ==> (__CPROVER_return_value == 0 || __CPROVER_return_value == 1))                         \
+  __CPROVER_ensures((!g_error && __CPROVER_return_value == 1) ==> (self->sampling_corresponds_to_physical_rings && SEG_OK(self, *segment_num) && RD_IN(self, *segment_num, ring_diff))) \
+  __CPROVER_ensures((!g_error && self->sampling_corresponds_to_physical_rings && SEG_OK(self, g_s) && RD_IN(self, g_s, ring_diff)) \
+                    ==> (__CPROVER_return_value == 1 && *segment_num == g_s))
+
+/* segment_axial_pos_to_ring1_plus_ring2[s][ax]: ASSUMED contract of the float block of initialise_ring_diff_arrays
+   (under its own integrality test): ring1+ring2 == 2*ax/inc + ax_pos_num_offset[s] */
+#define SPEC_RPR(p, s, ax) (2 * (ax) / INC(p, s) + AXOFF(p, s))
+int RPR_READ(const struct PDI2* self, int seg, int ax)
+__CPROVER_requires(self->ring_diff_arrays_computed && SEG_OK(self, seg) && ax > -100000 && ax < 100000)
+__CPROVER_assigns()
+__CPROVER_ensures(__CPROVER_return_value == SPEC_RPR(self, seg, ax))
+;
+/* get_segment_axial_pos_num_for_ring_pair. From the property ("every ring pair whose ring difference is covered lies
+   in exactly one (segment, axial position)"): the segment is the one covering ring2-ring1; the axial position is the
+   one whose ring1+ring2 equals this pair's (given the parity convention the constructor warns about) */
+#define RING_OK(p, r) ((r) >= 0 && (r) < (p)->num_rings)
+#define PARITY_OK(p, s) (INC(p, s) == 2 || (RDMAX(p, s) - AXOFF(p, s)) % 2 == 0)
+#define CONTRACT_K_get_segment_axial_pos_num_for_ring_pair                                                           \
+  __CPROVER_requires(__CPROVER_is_fresh(self, sizeof(*self)) && __CPROVER_is_fresh(segment_num, sizeof(int)) && __CPROVER_is_fresh(ax_pos_num, sizeof(int))) \
+  __CPROVER_requires(PDI2_VALID(self) && g_error == 0 && RING_OK(self, ring1) && RING_OK(self, ring2))                \
+  __CPROVER_assigns(*segment_num, *ax_pos_num, self->ring_diff_arrays_computed, g_error)                               \
+  __CPROVER_ensures((!g_error && __CPROVER_return_value == 1) ==> (SEG_OK(self, *segment_num) && RD_IN(self, *segment_num, ring2 - ring1))) \
+  __CPROVER_ensures((!g_error && self->sampling_corresponds_to_physical_rings && SEG_OK(self, g_s) && RD_IN(self, g_s, ring2 - ring1)) \
+                    ==> (__CPROVER_return_value == 1 && *segment_num == g_s))                                          \
+  __CPROVER_ensures((!g_error && __CPROVER_return_value == 1 && *segment_num == g_s && PARITY_OK(self, g_s))           \
+                    ==> SPEC_RPR(self, g_s, *ax_pos_num) == ring1 + ring2)
+
+/* compute_segment_axial_pos_to_ring_pair: the list for (segment, axial position) holds exactly the ring pairs of the
+   scanner with ring difference in the segment's interval and ring1+ring2 equal to this axial position's value - each once.
+   Ghost pair (g_r1,g_r2): how often it is pushed. */
+int g_r1, g_r2, g_rp_count_ghost;
+unsigned long g_rp_pushed, g_rp_reserved;
+#define RP_RESERVE(n) (g_rp_reserved = (unsigned long)(n))
+#define RP_PUSH(r1, r2)                                                                                               \
+  do                                                                                                                  \
+    {                                                                                                                 \
+      ++g_rp_pushed;                                                                                                  \
+      if ((r1) == g_r1 && (r2) == g_r2)                                                                               \
+        ++g_rp_count_ghost;                                                                                           \
+    }                                                                                                                 \
+  while (0)
+#define PAIR_BELONGS(p, s, ax, r1, r2)                                                                                \
+  (RING_OK(p, r1) && RING_OK(p, r2) && RD_IN(p, s, (r2) - (r1)) && (r1) + (r2) == SPEC_RPR(p, s, ax))
+#define CONTRACT_K_compute_segment_axial_pos_to_ring_pair                                                            \
+  __CPROVER_requires(__CPROVER_is_fresh(self, sizeof(*self)) && PDI2_VALID(self) && g_s == segment_num && SEG_OK(self, segment_num)) \
+  __CPROVER_requires(self->ring_diff_arrays_computed && axial_pos_num > -10000 && axial_pos_num < 10000 && g_rp_count_ghost == 0 && g_rp_pushed == 0) \
+  __CPROVER_assigns(g_rp_count_ghost, g_rp_pushed, g_rp_reserved)                                                      \
+  __CPROVER_ensures(g_rp_count_ghost == (PAIR_BELONGS(self, segment_num, axial_pos_num, g_r1, g_r2) ? 1 : 0))          \
+  __CPROVER_ensures(g_rp_pushed <= g_rp_reserved)
+#define RP_DONE (PAIR_BELONGS(self, segment_num, axial_pos_num, g_r1, g_r2) && g_r2 - g_r1 < ring_diff)
+#define LC_K_compute_segment_axial_pos_to_ring_pair_0                                                                \
+  __CPROVER_assigns(ring_diff, g_rp_count_ghost, g_rp_pushed)                                                          \
+  __CPROVER_loop_invariant(ring_diff >= min_ring_diff && ring_diff <= max_ring_diff + 2 && (ring_diff - ring1_plus_ring2) % 2 == 0) \
+  __CPROVER_loop_invariant(g_rp_count_ghost == (RP_DONE ? 1 : 0))                                                      \
+  __CPROVER_loop_invariant(2 * g_rp_pushed <= (unsigned long)(ring_diff - min_ring_diff) + 1)                          \
+  __CPROVER_decreases(max_ring_diff + 2 - ring_diff)
+
+/* get_ring_pair_for_segment_axial_pos_num (span 1 only): the unique ring pair of that (segment, axial position) */
+#define CONTRACT_K_get_ring_pair_for_segment_axial_pos_num                                                           \
+  __CPROVER_requires(__CPROVER_is_fresh(self, sizeof(*self)) && __CPROVER_is_fresh(ring1, sizeof(int)) && __CPROVER_is_fresh(ring2, sizeof(int))) \
+  __CPROVER_requires(PDI2_VALID(self) && g_error == 0 && g_s == segment_num && SEG_OK(self, segment_num) && axial_pos_num > -10000 && axial_pos_num < 10000) \
+  __CPROVER_assigns(*ring1, *ring2, self->ring_diff_arrays_computed, g_error)                                          \
+  __CPROVER_ensures((!self->sampling_corresponds_to_physical_rings || RDMIN(self, segment_num) != RDMAX(self, segment_num)) ==> g_error) \
+  __CPROVER_ensures((!g_error && PARITY_OK(self, segment_num))                                                         \
+                    ==> (*ring2 - *ring1 == RDMAX(self, segment_num) && *ring1 + *ring2 == SPEC_RPR(self, segment_num, axial_pos_num)))
+
 #endif
